@@ -24,6 +24,9 @@ def widen_c01(steps):
         out.append(s)
         if s["op"] == "write_env":
             out.append({"op": "env_to_metadata", "name": s["name"]})
+        if s["op"] == "write_exec_d":
+            # re-arrange the programs using the layer's own exec.d files as sources (swap): whatever happens must not depend on the process
+            out.append({"op": "write_exec_d", "name": s["name"], "programs": [["p1", "@layer/exec.d/p2"], ["p2", "@layer/exec.d/p1"], ["p3", "p3"]], "swap": True})
     steps[:] = out
     for s in steps:
         if s["op"] == "write_metadata":
@@ -36,7 +39,7 @@ def widen_c01(steps):
             # two different documents of one format: which one ends up on disk must not depend on the process
             f0 = s["sboms"][0][0]
             s["sboms"] = [[f0, b'{"first":1}'.hex()]] + s["sboms"] + [[f0, b'{"last":2}'.hex()]]
-        if s["op"] == "write_exec_d":
+        if s["op"] == "write_exec_d" and not s.get("swap"):
             s["programs"] = [[p, p] for p in ("p1", "p2", "p3")]
     return steps
 
@@ -121,12 +124,13 @@ def phase_script(r):
         for i in range(8):
             plan.append(["provides", "prov-%d-%d" % (g, i)])
             plan.append(["requires", "req-%d-%d" % (g, i), tomlw.tagged(dict(WIDE))])
+        plan.append(["requires_hashmap", "from-hashmap-%d" % g, 12])
         if g < 2:
             plan.append(["or"])
     store = dict(WIDE)
     store["nested"] = dict(WIDE)
     return {"detect": {"result": "plan", "plan": plan},
-            "build": {"result": "ok", "launch": {"processes": procs, "labels": labels}, "store": tomlw.tagged(store),
+            "build": {"result": "ok", "launch": {"processes": procs, "labels": labels}, "store": tomlw.tagged(store), "store_hashmap_keys": 12,
                       "build_sboms": ["cdx", "spdx", "syft"], "launch_sboms": ["syft", "cdx"]}}
 
 
